@@ -301,7 +301,7 @@ func (fc *FnCtx) enterLoop(l *Loop, head *ssa.BasicBlock, iter func(yield func(f
 	fc.curReach = saveReach
 	// 2. havoc
 	mods := fc.loopMods(l)
-	fc.havocSet(&fc.cur, mods)
+	fc.havocLoop(&fc.cur, mods, l)
 	for _, phi := range phis {
 		pv := fc.freshVal(phi.Name()+"."+phi.Comment, phi.Type())
 		if f := fc.familyOf[phi]; f != nil {
